@@ -47,6 +47,38 @@ class SockWorld:
         self.sock.subscribe_on_message_received(self._on_msg)
         self.sock.subscribe_on_connection_changed(self._on_conn)
 
+    def add_odd_subscribers(self):
+        """Subscribers that are plain functions returning awaitables other than coroutines
+        (a Future resolved a turn later, asyncio.gather(...), an object with __await__) - all
+        legal for Callable[..., Awaitable[None]]."""
+        loop = self.loop
+
+        def conn_future(*, connected):
+            f = loop.create_future()
+            loop.call_soon(f.set_result, None)
+            self.log.add("SUB.odd", what="future", connected=connected)
+            return f
+
+        def msg_gather(hdr, msg):
+            self.log.add("SUB.odd", what="gather")
+            return asyncio.gather(asyncio.sleep(0), asyncio.sleep(0))
+
+        class Aw:
+            def __await__(self):
+                return asyncio.sleep(0).__await__()
+
+        def conn_custom(*, connected):
+            return Aw()
+
+        def msg_task(hdr, msg):
+            return loop.create_task(asyncio.sleep(0))
+
+        self._odd = [conn_future, msg_gather, conn_custom, msg_task]   # keep references
+        self.sock.subscribe_on_connection_changed(conn_future)
+        self.sock.subscribe_on_connection_changed(conn_custom)
+        self.sock.subscribe_on_message_received(msg_gather)
+        self.sock.subscribe_on_message_received(msg_task)
+
     async def _on_msg(self, hdr, msg):
         if self.msg_delays:
             # a subscriber that takes its time (records when it has finished)
